@@ -1,5 +1,7 @@
 import Ymq.Props.C18
 import Ymq.Props.C18C19
+import Ymq.Props.C18Forms
+import Ymq.Props.C18Legendre
 #print axioms Ymq.C18.b_plus_unique
 #print axioms Ymq.C18.parity_exactly_one
 #print axioms Ymq.C18.bPlus_spec_odd
@@ -23,3 +25,23 @@ import Ymq.Props.C18C19
 #print axioms Ymq.C18.invariants_multiply
 #print axioms Ymq.C18.invariantsOk_spec
 #print axioms Ymq.C18C19.reported_invariants_multiply
+#print axioms Ymq.C18.value_form_equiv
+#print axioms Ymq.C18.dirichlet_composition
+#print axioms Ymq.C18.concordant_product
+#print axioms Ymq.C18.product_disc
+#print axioms Ymq.C18.prime_form_sign_odd
+#print axioms Ymq.C18.prime_form_sign_two
+#print axioms Ymq.C18.normalised_root_exists
+#print axioms Ymq.C18.relation_genuine
+#print axioms Ymq.C18.primitive_of_fundamental
+#print axioms Ymq.C18.relation_genuine_fundamental
+#print axioms Ymq.C18.theRoot_is_b_plus
+#print axioms Ymq.C18.reduce_pequiv
+#print axioms Ymq.C18.legendre_eq_legendreSym_partial
+#print axioms Ymq.C18.legendre_no_panic
+#print axioms Ymq.C18.legendre_two
+#print axioms Ymq.C18.legendre_residue_form
+#print axioms Ymq.C18.legendre_panics_of_ge_two_pow_30
+#print axioms Ymq.C18.legendre_large_prime_panics
+#print axioms Ymq.C18.legendre_panics_small_moduli
+#print axioms Ymq.C18.legendre_composite_debug_assert
